@@ -80,6 +80,17 @@ CHECKS = {
              'query position at once; the real ecdf functions (sort network, bisection, indexing) against the counting definition.',
         note='Trusted: z3 (LRA/LIA); numpy sort/searchsorted model.',
         ref='DESIGN.md 4/C09'),
+    'C10': dict(
+        text='Bounded symbolic model checking in extended reals with uninterpreted log/log10/lgamma: the real pseudo-likelihood, '
+             'spatial, magnitude, resampled-magnitude and MLL tests run on a real CatalogForecast of J=2 (3) synthetic-catalog stubs '
+             'with symbolic gridded counts against symbolic observed counts; observed statistic, every test-distribution entry '
+             '(skipped catalogs included), status (normal / undersampled / not-valid / no result) and quantiles are compared with '
+             'the documentation formulas. Magnitude tests by assume-guarantee: scoring kernels (cumulative_square_diff, MLL_score) '
+             'are decided against their definitions for all inputs in lemma jobs and replaced by recording opaque functions in the '
+             'test-level runs; cube-and-conquer over the event totals keeps the arithmetic linear.',
+        note='Trusted: z3 (NRA+UF); catalog stubs (gridding is C03); numpy.random.choice as arbitrary admissible draws; functional '
+             'consistency (Ackermann) lemmas for eliminated divisions. The number test is decided in C07.',
+        ref='DESIGN.md 4/C10'),
     'C11': dict(
         text='Bounded symbolic model checking: the real GriddedForecast.load_ascii / from_custom / quadtree loaders run on file '
              'layouts (lattice x magnitude bins x flags x row order x swap_latlon) delivered by the loadtxt stub, the rate column '
